@@ -8,6 +8,7 @@ use serde_json::json;
 
 mod ir;
 mod keys;
+mod lenrel;
 mod rel;
 mod vals;
 mod ver;
@@ -354,7 +355,7 @@ fn run_expose_single(ctx: &mut Ctx) {
         Fp as BlsFp,
     };
     let nr = if q { 1 } else { 12 };
-    let ffpaths = [Path::Constrain, Path::Assign, Path::Fixed, Path::Derived(0), Path::Derived(1)];
+    let ffpaths = [Path::Constrain, Path::Assign, Path::Fixed, Path::Derived(0), Path::Derived(1), Path::Derived(2), Path::Derived(3), Path::Derived(4)];
     for p in ffpaths {
         let lim = |n: usize| if q && !search && p != Path::Constrain && p != Path::Assign { n.min(6) } else { n };
         let v = field_boundaries::<SecpFp>(64, 4);
@@ -368,6 +369,10 @@ fn run_expose_single(ctx: &mut Ctx) {
         let v = field_boundaries::<BlsFp>(56, 7);
         for x in v.iter().take(lim(v.len())).cloned().chain((0..nr).map(|_| rand_field(&mut rng))) {
             single(ctx, &mut kc, p, Item::BlsBase(x));
+        }
+        // points: d0 (negate), d1 (one addition), d2 (two additions)
+        if matches!(p, Path::Derived(n) if n >= 3) {
+            continue;
         }
         for pt in secp_points(&mut rng, nr) {
             single(ctx, &mut kc, p, Item::SecpPoint(pt));
@@ -861,12 +866,35 @@ fn run_ir(ctx: &mut Ctx) {
 
 fn main() {
     let mut ctx = Ctx::from_args("C08");
-    run_consts(&mut ctx);
-    run_enc(&mut ctx);
-    run_expose_single(&mut ctx);
-    run_expose_mixed(&mut ctx);
-    run_keys(&mut ctx);
-    run_verifier(&mut ctx);
-    run_ir(&mut ctx);
+    // development aid: `C08_ONLY=verify,keys` runs only the named sections (the check never sets it)
+    let only = std::env::var("C08_ONLY").ok();
+    let on = |name: &str| only.as_ref().map(|o| o.split(',').any(|x| x == name)).unwrap_or(true);
+    if on("consts") {
+        run_consts(&mut ctx);
+    }
+    if on("enc") {
+        run_enc(&mut ctx);
+    }
+    if on("single") {
+        run_expose_single(&mut ctx);
+    }
+    if on("mixed") {
+        run_expose_mixed(&mut ctx);
+    }
+    if on("keys") {
+        run_keys(&mut ctx);
+    }
+    if on("verify") {
+        lenrel::run_verify_count(&mut ctx);
+    }
+    if on("bigguard") {
+        lenrel::run_big_guard(&mut ctx);
+    }
+    if on("verifier") {
+        run_verifier(&mut ctx);
+    }
+    if on("ir") {
+        run_ir(&mut ctx);
+    }
     ctx.finish();
 }
